@@ -1,5 +1,7 @@
 import ArgMapper.Driver.SigD
 import ArgMapper.Model.Reach
+import ArgMapper.Model.Gens
+import ArgMapper.Props.C07b
 import ArgMapper.Spec.Match
 /-!
 # Driver: resolver scenarios (`call` and friends)
@@ -45,6 +47,8 @@ structure Scn where
   opts     : List Opt
   /-- set when a function description could not be turned into a `FuncDesc` -/
   bad      : Option String
+  /-- converter generators with a rule: (generator id, trigger type, trigger name or "*", function, mode) -/
+  genRules : List (Nat × Nat × String × Nat × String) := []
 
 def parseTypes (ts : List String) : TypeEnv :=
   let tbl : List (Nat × List Nat) := ts.filterMap (fun t =>
@@ -61,6 +65,7 @@ def parseCallOpt (ts : List String) : Opt :=
   | "conv" :: fs => .convFunc (fs.map (fun f => some (natOf f)))
   | "convfunc" :: fs => .convFunc (fs.map (fun f => some (natOf f)))
   | ["gen", "fail"] => .gen 1
+  | "gen" :: "rule" :: k :: _ => .gen (natOf k + 2)
   | ["gen", "nil"] => .gen 0
   | ["convnil"] => .conv [none]
   | ["convbad"] => .conv [none]
@@ -83,7 +88,23 @@ def parseScn (b : Block) : Scn :=
     | .error _ => none)
   { reportsInputs := b.lines.any (fun l => l.head? = some "opt" ∧ l.length > 1 ∧ l[1]? ≠ some "nil" ∧ l[1]? ≠ some "other"),
     env := env, fns := infos, defaults := natOf (((field b "defaults").getD []).headD "0"),
-    opts := (b.lines.filter (fun l => l.head? = some "opt")).map (fun l => parseCallOpt (l.drop 1)), bad := bad }
+    opts := (b.lines.filter (fun l => l.head? = some "opt")).map (fun l => parseCallOpt (l.drop 1)), bad := bad,
+    genRules := b.lines.filterMap (fun l => match l with
+      | "opt" :: "gen" :: "rule" :: k :: rest =>
+        some (natOf k + 2, natOf ((kv rest "ty").getD "0"), unTilde ((kv rest "name").getD "*"),
+              natOf ((kv rest "fid").getD "0"), (kv rest "mode").getD "ok")
+      | _ => none) }
+
+/-- the generators of a scenario as functions of the visited vertex: id 0 never returns anything, id 1
+always reports an error, the others follow their rule (trigger type, optionally trigger name) -/
+def Scn.genOf (sc : Scn) (g : Nat) (v : Vtx) : GenRes :=
+  if g = 0 then .nothing else if g = 1 then .err else
+  match sc.genRules.find? (fun r => r.1 == g) with
+  | none => .nothing
+  | some (_, ty, name, fid, mode) =>
+    if v.ty == ty && (name == "*" || v.name == name) then
+      (if mode == "fail" then .err else if mode == "nil" then .nothing else .func fid)
+    else .nothing
 
 def Scn.fn (sc : Scn) (id : Nat) : Option FuncDesc := (sc.fns.find? (fun f => f.desc.id == id)).map (·.desc)
 
@@ -489,7 +510,8 @@ def runCall (fl : Flags) (b : Block) (conv : Bool := false) : Res :=
   | some m, _ => { conform := some s!"model_rejects_{noSpace m}", propNA := true }
   | _, none => { conform := some "no_target", propNA := true }
   | none, some target =>
-  let runsX := splitRunsWith ["cv"] b.lines
+  let runsG := splitRunsWith ["cv", "gi"] b.lines
+  let runsX := runsG.map (fun r => (r.1, r.2.filter (fun l => l.head? = some "cv")))
   let runs := runsX.map (fun r => r.1)
   match sc.builder with
   | .nilArg | .optErr _ =>
@@ -498,18 +520,44 @@ def runCall (fl : Flags) (b : Block) (conv : Bool := false) : Res :=
       props := [("C06", if runs.any (fun r => isPanicRes (resOf r)) then "FAIL:panic_on_malformed_option" else "ok")],
       stats := ["outcome=builderr"] }
   | .ok bld =>
-  -- a converter generator that reports an error: it is invoked for every value / typed-output vertex
-  -- present once inputs and converters are in the graph, and its error must come back as an error
-  let genFails := bld.gens.contains 1 ∧
-    (target.input.labels.any (fun l => l.name != "") || !(suppliedOf bld).isEmpty ||
-     (bld.convs.filterMap sc.fn).any (fun f => !f.output.labels.isEmpty || f.input.labels.any (fun l => l.name != "")))
-  if genFails then
+  -- converter generators: invoked for every named value / typed output present once inputs and converters
+  -- are in the graph (a snapshot; the model iterates it in representation order, the code in map order);
+  -- the first error aborts the call, generated functions join the converter list
+  let snap := genVerts (preGenGraph bld sc.fn target)
+  let giOf := fun (r : List (List String)) => r.filterMap (fun l => match l with
+    | ["gi", g, v, res] => some (natOf g + 2, parseVtx v, res)
+    | _ => none)
+  let showGen : GenRes → String := fun r => match r with | .nothing => "nil" | .err => "err" | .func f => toString f
+  -- every traced invocation is on a snapshot vertex and returned what the rule says
+  let giBad := runsG.findSome? (fun rx => (giOf rx.2).findSome? (fun t =>
+    if !snap.contains t.2.1 then some s!"generator_invoked_for_{showVtx t.2.1}_outside_the_snapshot"
+    else if showGen (sc.genOf t.1 t.2.1) ≠ t.2.2 then some s!"generator_{t.1}_on_{showVtx t.2.1}_model={showGen (sc.genOf t.1 t.2.1)}_impl={t.2.2}"
+    else none))
+  match expandGens sc.genOf bld snap with
+  | none =>
     let ok := runs.all (fun r => resOf r = ["err", "generr"])
-    { conform := if ok then none else some s!"failing_generator_expected_error_got_{noSpace (" ".intercalate (resOf (runs.headD [])))}",
+    -- the traced invocations end with the failing one
+    let giEnd := runsG.findSome? (fun rx =>
+      let gi := giOf rx.2
+      if sc.genRules.isEmpty then none
+      else if (gi.getLast?.map (·.2.2)) ≠ some "err" then some "generator_error_not_the_last_invocation"
+      else if (gi.dropLast.any (fun t => t.2.2 == "err")) then some "generators_invoked_after_an_error"
+      else none)
+    { conform := (if ok then none else some s!"failing_generator_expected_error_got_{noSpace (" ".intercalate (resOf (runs.headD [])))}").or (giBad.or giEnd),
       propNA := true,
       props := [("C06", if runs.any (fun r => isPanicRes (resOf r)) then "FAIL:panic_when_a_converter_generator_reports_an_error" else "ok")],
-      stats := ["outcome=generr", "execs=0", s!"convs={bld.convs.length}"] }
-  else
+      stats := ["outcome=generr", "execs=0", s!"convs={bld.convs.length}", "gens=err"] }
+  | some bldX =>
+  -- without an error every generator was invoked exactly once for every snapshot vertex
+  let ruleGens := bld.gens.filter (fun g => g ≥ 2)
+  let giAll := runsG.findSome? (fun rx =>
+    let gi := (giOf rx.2).map (fun t => (t.1, t.2.1))
+    let want := snap.flatMap (fun v => ruleGens.map (fun g => (g, v)))
+    if want.all (fun w => gi.count w == want.count w) ∧ gi.length = want.length then none
+    else some s!"generator_invocations_model={want.length}_impl={gi.length}")
+  let generated := bldX.convs.length - bld.convs.length
+  let genStat := if bld.gens.isEmpty then "gens=none" else if generated > 0 then "gens=fired" else "gens=idle"
+  let bld := bldX
   let cgr := callGraph fl.var sc.env bld sc.fn target false none
   -- graph dump
   let dl := (field b "dump").getD []
@@ -535,7 +583,7 @@ def runCall (fl : Flags) (b : Block) (conv : Bool := false) : Res :=
     let preds := runPredicates sc fx evs
     let preds := if conv && !rx.2.isEmpty then preds.filter (fun p => p.1 != "C03") else preds
     (replayRun fl sc bld cgr target evs ((resOf evs).head? == some "crash") (conv && !rx.2.isEmpty), preds, evs))
-  let conform := cd.or (outs.findSome? (fun o => o.1.conform))
+  let conform := (giBad.or giAll).or (cd.or (outs.findSome? (fun o => o.1.conform)))
   -- aggregate predicates over runs
   let pids := ["C01", "C02", "C03", "C04", "C06", "C13"]
   let agg := pids.map (fun p => (p, verdictStr (outs.findSome? (fun o => (o.2.1.find? (fun q => q.1 == p)).bind (·.2)))))
@@ -551,6 +599,33 @@ def runCall (fl : Flags) (b : Block) (conv : Bool := false) : Res :=
     else "ok"
   -- C07: the two documented priority families (header says which execution is expected)
   let fam := (kv b.head "fam").getD ""
+  -- does the real pruned graph meet the decidable premise of the C07 path theorems?
+  let premStat : String :=
+    if fam = "affA" then
+      let conv := natOf ((kv b.head "conv").getD "0")
+      let wants := ((kv b.head "want").getD "").splitOn "," |>.filterMap (fun w =>
+        match w.splitOn ":" with | [n, v] => some (n, natOf v) | _ => none)
+      match sc.fn conv with
+      | none => "prem=A:nofn"
+      | some cf =>
+        let a : Vtx := .arg ((cf.input.labels.headD default).ty) ""
+        let all := wants.all (fun w =>
+          match cgr.cg.store.find? (fun p => p.2.id == w.2) with
+          | some p => C07.famA cgr.cg.g w.1 a p.1
+          | none => false)
+        s!"prem=A:{all}"
+    else if fam = "affB" then
+      let k2 := (sc.fn (natOf ((kv b.head "want").getD "0"))).map (·.key) |>.getD 0
+      let f1 := sc.fn (natOf ((kv b.head "not").getD "0"))
+      let k1 := f1.map (·.key) |>.getD 0
+      let u := cgr.inputs.headD .root
+      let a : Vtx := .arg u.ty ""
+      let cur := (target.input.labels.headD default).vertex
+      let o : Vtx := .out cur.ty ""
+      if C07.famB cgr.cg.g u.name u a o k1 k2 then "prem=B:true"
+      else if C07.famB' cgr.cg.g u.name u a o cur k1 k2 then "prem=B':true"
+      else "prem=B:false"
+    else "prem=na"
   let c07 : String :=
     if fam = "affA" then
       let conv := natOf ((kv b.head "conv").getD "0")
@@ -619,6 +694,6 @@ def runCall (fl : Flags) (b : Block) (conv : Bool := false) : Res :=
   { conform := conform, propNA := true, props := agg ++ [("C05", c05), ("C07", c07), ("C08", c08), ("C10", c10)],
     stats := [s!"outcome={firstOutcome}", s!"execs={nexec}", s!"convs={fx.convs.length}", s!"depth={depth}",
               s!"class={if fx.exactAll then "exact" else if !fx.underiv.isEmpty then "underiv" else "deriv"}",
-              s!"runs={runs.length}"] }
+              s!"runs={runs.length}", genStat, premStat] }
 
 end ArgMapper.Driver
